@@ -365,6 +365,9 @@ static int convertToNested(KSI_TlvElement *el) {
 
 cleanup:
 
+	KSI_TlvElementList_free(list);
+	KSI_TlvElement_free(tmp);
+
 	return res;
 }
 
